@@ -79,3 +79,160 @@ Definition tok5 (y s e : N) : bool :=
 Example C01_nonvacuous :
   forest_ok gE tok5 (fun p => p) true 1 0 5 true F_amb = true /\ length (root_trees F_amb) = 2%nat.
 Proof. vm_compute. split; reflexivity. Qed.
+
+(* ---- the GLR driver model (Model/GLR.v: GLRParser.parse, _find_lookaheads, _actor,
+   _do_reductions, _reduce, _do_shifts, GSSNode, Parent, Forest.__init__; compared with the
+   implementation on every run of C02/C17, harness/lib/glrcorr.py) -------------------------- *)
+From PV Require Import Model.Scan Model.Parser Model.GLR Spec.GLRSpec Proofs.GLRProofs Proofs.GLRWitness
+  Proofs.GLRWitnessData.
+
+(* Soundness of the driver, for ALL tables passing table_struct, ALL scanners (terminal data,
+   recognizer oracle rx, consume_input, lexical disambiguation), layout skippers, iteration
+   orders of the revisit set, start positions and fuel: every tree that unfolds from the root
+   of the returned forest -- through any sharing, any cycle, any of the driver's merges of
+   links under one "<frontier>_<state>" id -- is a derivation tree of the grammar rooted in
+   the start symbol.  Proof: a GSS invariant over node states (Proofs/GLRProofs.v) preserved
+   by every step of the machine. *)
+Theorem C01_glr_model_sound :
+  forall (g : grammar) (tb : table) (start : N),
+    table_struct g tb start = true ->
+    forall (terms : list term_info) (rx : N -> N -> option N) (in_len stop_id : N)
+           (consume lexdis : bool) (skipws : N -> skres) (rorder : list nat -> list nat -> list nat)
+           (fuel : nat) (pos : N) (nodes : forest) (root : nat),
+      glr_parse g tb terms rx in_len stop_id consume lexdis skipws rorder fuel pos = GLRForest nodes root ->
+      forall t, unfolds (glr_forest nodes root) (pred (length (glr_forest nodes root))) t ->
+                wf_tree g t /\ root_sym g t = Some (NT start).
+Proof. exact glr_sound. Qed.
+Print Assumptions C01_glr_model_sound.
+
+(* the same for the assembled parser (scanner of Model/Scan.v, ws or LAYOUT sub-parser,
+   CPython set order) that the correspondence check runs *)
+Theorem C01_glr_model_sound_full :
+  forall (c : pconf) (inp : pinput) (fuel : nat) (pos start : N) (nodes : forest) (root : nat),
+    table_struct (pc_g c) (pc_tb c) start = true ->
+    glr_parse_full c inp fuel pos = GLRForest nodes root ->
+    forall t, unfolds (glr_forest nodes root) (pred (length (glr_forest nodes root))) t ->
+              wf_tree (pc_g c) t /\ root_sym (pc_g c) t = Some (NT start).
+Proof. exact glr_full_sound. Qed.
+Print Assumptions C01_glr_model_sound_full.
+
+(* FULL STATEMENT, FALSE OF THE FAITHFUL MODEL (two refutations follow): "the model returns a
+   forest iff the input is a sentence, and the leaves of every tree of the forest are a
+   tokenisation of the input" (i.e. the forest passes forest_ok).
+   (1) a sentence is rejected (KF-C01-glr-false-reject: grammar S: A S A | EMPTY;
+       A: S S | A 'b' | 'a' 'b' S;  LALR, input "b"): the model returns GLRReject although a
+       derivation certified by the verified checker valid_parse/tsum exists. *)
+Theorem C01_glr_model_false_reject_refuted :
+  exists (c : pconf) (inp : pinput) (fuel : nat) (start : N) (t : tree),
+    pc_consume c = true /\
+    table_struct (pc_g c) (pc_tb c) start = true /\
+    glr_parse_full c inp fuel 0 = GLRReject /\
+    valid_parse c inp start 0 t = true /\
+    wf_tree (pc_g c) t /\ root_sym (pc_g c) t = Some (NT start).
+Proof. exact glr_model_false_reject. Qed.
+Print Assumptions C01_glr_model_false_reject_refuted.
+
+(* (2) a tree of the returned forest whose leaves are NOT a tokenisation of the input
+       (KF-C01-glr-invalid-tree-overlap: S: AA | AA A | S S; A: 'a'; AA: 'aa'; SLR, "aaaaaa":
+       the leaves aa[0,2) a[2,3) aa[4,6) skip the character at 3) *)
+Theorem C01_glr_model_overlap_refuted :
+  exists (c : pconf) (inp : pinput) (fuel : nat) (start : N) (nodes : forest) (root : nat) (t : tree),
+    pc_consume c = true /\
+    table_struct (pc_g c) (pc_tb c) start = true /\
+    glr_parse_full c inp fuel 0 = GLRForest nodes root /\
+    unfolds (glr_forest nodes root) (pred (length (glr_forest nodes root))) t /\
+    ~ chain_ok (skip_ws (pc_ws c) inp) (leaves t).
+Proof. exact glr_model_overlap. Qed.
+Print Assumptions C01_glr_model_overlap_refuted.
+
+(* Tokenisation, for ALL tables, scanners, inputs, set orders, positions, fuel and both
+   settings of consume_input, under the condition that keeps the heads of one frontier in step: all
+   tokens found at one input position by any two states have one length (stated on the token
+   lists the scanner model returns, so a lexical disambiguation that restores uniformity
+   counts); STOP has no recognizer match and is never shifted; ACCEPT stands in the STOP column
+   only; the layout skipper [sk] never retreats.  Then every tree of the returned forest has
+   leaves that begin right after the leading layout, are each matched by their recognizer and
+   follow one another separated by layout only (a tokenisation of a prefix of the input: C17);
+   with consume_input on only layout follows the last one.
+   Together with C01_glr_model_sound: every tree is a derivation tree OF THE INPUT.
+   Without the length condition the statement is false (C01_glr_model_overlap_refuted).
+   Proof: a second invariant (Proofs/GLRTokProofs.v) assigning a raw position to every
+   frontier number; frontier numbers stand in for node identity because links are keyed by
+   "<frontier>_<state>". *)
+From PV Require Import Proofs.GLRTokProofs Proofs.GLRTokFull.
+Theorem C01_glr_model_tokenisation :
+  forall (g : grammar) (tb : table) (start : N),
+    table_struct g tb start = true ->
+    forall (terms : list term_info) (rx : N -> N -> option N) (in_len stop_id : N)
+           (consume lexdis : bool)
+           (skipws : N -> skres) (rorder : list nat -> list nat -> list nat) (sk : N -> N),
+      (forall p q, skipws p = SkOk q -> q = sk p) ->
+      (forall p, p <= sk p) ->
+      (forall p, rx stop_id p = None) ->
+      (forall s s', ~ In (Shift s') (cell tb s stop_id)) ->
+      (forall s y, In Accept (cell tb s y) -> y = stop_id) ->
+      (forall s s' p y l y' l',
+         In (y, l) (tokens_at tb terms rx in_len stop_id consume lexdis s p) ->
+         In (y', l') (tokens_at tb terms rx in_len stop_id consume lexdis s' p) ->
+         y <> stop_id -> y' <> stop_id -> l = l') ->
+      forall (fuel : nat) (pos : N) (nodes : forest) (root : nat),
+        glr_parse g tb terms rx in_len stop_id consume lexdis skipws rorder fuel pos = GLRForest nodes root ->
+        forall t, unfolds (glr_forest nodes root) (pred (length (glr_forest nodes root))) t ->
+          chain_ok sk (leaves t) /\ All (leaf_ok (tokok rx)) (leaves t) /\
+          match bounds (leaves t) with
+          | None => consume = true -> sk pos = in_len
+          | Some (fs, le) => fs = sk pos /\ (consume = true -> le <= in_len /\ sk le = in_len)
+          end.
+Proof. exact glr_tok_sound. Qed.
+Print Assumptions C01_glr_model_tokenisation.
+
+(* the assembled parser under boolean conditions the harness evaluates on every
+   correspondence case (command 212): consume_input on, ws layout, and glr_tok_checks =
+   stop_row_zero && no_stop_shift && accept_only_stop && rx_uniform (no two terminals match
+   with different lengths at one position of this input).  Conclusion: the full C01 statement
+   for every tree of the model's forest. *)
+Theorem C01_glr_model_valid_full :
+  forall (c : pconf) (inp : pinput) (fuel : nat) (pos start : N) (nodes : forest) (root : nat),
+    table_struct (pc_g c) (pc_tb c) start = true ->
+    glr_tok_checks c inp = true ->
+    glr_parse_full c inp fuel pos = GLRForest nodes root ->
+    forall t, unfolds (glr_forest nodes root) (pred (length (glr_forest nodes root))) t ->
+      wf_tree (pc_g c) t /\ root_sym (pc_g c) t = Some (NT start) /\
+      chain_ok (skip_ws (pc_ws c) inp) (leaves t) /\ All (leaf_ok (tokok_of inp)) (leaves t) /\
+      match bounds (leaves t) with
+      | None => skip_ws (pc_ws c) inp pos = in_len inp
+      | Some (fs, le) => fs = skip_ws (pc_ws c) inp pos /\ le <= in_len inp /\
+                         skip_ws (pc_ws c) inp le = in_len inp
+      end.
+Proof. exact glr_full_tok_sound. Qed.
+Print Assumptions C01_glr_model_valid_full.
+
+(* No internal failure of the driver (the GLR counterpart of C10_lr_no_crash): with a table
+   passing table_struct and table_progress the model never ends in GLRCrash -- no head without
+   lookahead reaches _actor, every production reduced exists and has its goto, every state
+   revisited is an active head, an accepted head has a link for Forest.__init__ -- for all
+   scanners, inputs, positions, fuel; the modelled CPython set order meets the side condition
+   (it only yields members of the set: Proofs/PySetProofs.v). *)
+From PV Require Import Validators.TableProgress Proofs.GLRNoCrash.
+Theorem C01_glr_model_no_crash :
+  forall (c : pconf) (inp : pinput) (fuel : nat) (pos start : N) (code : N),
+    table_struct (pc_g c) (pc_tb c) start = true ->
+    table_progress (pc_g c) (pc_tb c) (pc_stop c) = true ->
+    glr_parse_full c inp fuel pos <> GLRCrash code.
+Proof. exact glr_full_no_crash. Qed.
+Print Assumptions C01_glr_model_no_crash.
+
+(* non-vacuity of C01_glr_model_sound: E: E '+' E | 'n' on "n+n+n" -- the table passes
+   table_struct and the model returns a forest of 12 links whose root has two alternatives *)
+Example C01_glr_model_nonvacuous :
+  table_struct ok_g ok_tb ok_start = true /\
+  (match glr_parse_full ok_conf ok_inp wfuel 0 with
+   | GLRForest nodes root => Nat.eqb (length nodes) 12 && Nat.eqb (length (nth root nodes [])) 2
+   | _ => false
+   end) = true.
+Proof. exact ok_bool. Qed.
+
+(* ... and of C01_glr_model_valid_full: the same run meets glr_tok_checks *)
+Example C01_glr_model_valid_nonvacuous :
+  glr_tok_checks ok_conf ok_inp = true /\ table_progress ok_g ok_tb (pc_stop ok_conf) = true.
+Proof. vm_compute. split; reflexivity. Qed.
